@@ -93,7 +93,8 @@ def decide(src_or_tree, transformer, N, res, label, rtypes=None, sigs=None, allo
     rt = dict(gen.RTYPES)
     rt.update(rtypes or {})
     status, d = tv.tv_pair(P, P2, N=N, rtypes=rt, sigs=sigs, stats=res.stats)
-    if status == tv.OK and free_check:
+    if status in (tv.OK, tv.SKIP, tv.INCONCLUSIVE) and free_check:
+        # syntactic side check, independent of the semantic verdict (also for inputs that always raise): no new unbound name
         extra = tv.free_names(P2) - tv.free_names(P) - BUILTIN_FREE
         if extra:
             status, d = tv.VIOLATION, {"kind": "output has new free names %s" % sorted(extra)}
@@ -215,12 +216,20 @@ def fold_into(run, res, what):
         run.inconclusive.append(i)
     for h in res.harness[:30]:
         run.harness_error(h)
+    from vlib import report as _report
+    known = {k["id"]: k for k in _report.known_for(run.prop)}
     seen = set()
     for v in res.violations:
         key = (v.get("program"), v.get("kind"))
         if key in seen:
             continue
         seen.add(key)
+        kid = v.get("known_id")
+        if kid and kid in known:
+            msg = "%s: %s" % (kid, known[kid]["what"])
+            if msg not in run.known_hit:
+                run.known_hit.append(msg)
+            continue
         run.violation("%s: %s  [%s]" % (v.get("kind"), v.get("program", "")[:300], v.get("label")), v)
 
 
@@ -251,8 +260,18 @@ def helper_funs(module_ast, names):
     for node in module_ast.body:
         if isinstance(node, ast.FunctionDef) and node.name in names:
             rets = [b for b in node.body if isinstance(b, ast.Return)]
-            if len(node.body) == 1 and rets:
-                henv[node.name] = enc.Fun([a.arg for a in node.args.args], rets[0].value, henv)
+            body = [b for b in node.body if not (isinstance(b, ast.Expr) and isinstance(b.value, ast.Constant))]
+            if len(body) == 1 and rets:
+                a = node.args
+                params = [x.arg for x in a.args] + [x.arg for x in a.kwonlyargs]
+                dfl = {}
+                for pn, d in zip([x.arg for x in a.args][len(a.args) - len(a.defaults):], a.defaults):
+                    dfl[pn] = ("expr", d)
+                for x, d in zip(a.kwonlyargs, a.kw_defaults):
+                    if d is not None:
+                        dfl[x.arg] = ("expr", d)
+                henv[node.name] = enc.Fun(params, rets[0].value, henv, {k: enc.const_value(None, v[1].value) if isinstance(v[1], ast.Constant) and isinstance(v[1].value, (int, bool)) else None
+                                                                          for k, v in dfl.items()})
         if isinstance(node, ast.Assign) and isinstance(node.value, ast.Lambda) and isinstance(node.targets[0], ast.Name) and node.targets[0].id in names:
             henv[node.targets[0].id] = enc.Fun([a.arg for a in node.value.args.args], node.value.body, henv)
     return henv
@@ -550,6 +569,8 @@ def unit_layouts(u):
                         res.harness.append("the callable passed is not the lambda the generator believes (%s): %s" % (exp_src, c["code"]))
                         continue
                     payload = dict(engine="T", unit="layouts", layout=c["code"], context=c.get("ctx"), expected=exp_src, caller=caller, label=label, documented=c["documented"], N=u["N"])
+                    if c.get("known_id"):
+                        payload["known_id"] = c["known_id"]
                     if exc is not None:
                         if c["documented"]:
                             res.violations.append(dict(payload, kind="documented layout not recovered: %s: %s" % (type(exc).__name__, str(exc)[:200]), program=exp_src))
